@@ -1,4 +1,4 @@
 ---------------------------- MODULE MC_Lifecycle ----------------------------
 EXTENDS Lifecycle
-MCScenario == <<"configure", "tunsend", "hs1", "hs2", "data", "reload", "advance", "lighthouse", "punchburst">>
+MCScenario == <<"configure", "tunsend", "hs1", "hs2", "data", "reload", "advance", "lighthouse", "rebind", "punchburst">>
 =============================================================================
